@@ -29,6 +29,9 @@
 
 #include "bloch/compiler/ast/ast.hpp"
 #include "bloch/runtime/qasm_simulator.hpp"
+#ifdef BLOCH_VERIF
+#include <functional>
+#endif
 
 namespace bloch::runtime {
 
@@ -341,6 +344,21 @@ namespace bloch::runtime {
         const auto& trackedCounts() const { return m_trackedCounts; }
         // Test helper to observe whether the GC worker was started for this run.
         bool gcThreadStartedForTest() const { return m_gcThreadStarted; }
+
+#ifdef BLOCH_VERIF
+        // Verification hooks: observe the simulator; force collection points.
+        const QasmSimulator& verifSim() const { return m_sim; }
+        // When set, the wall-clock timer thread is not started and a collection is requested
+        // at the k-th statement boundary iff schedule(k) (allocation pressure still applies).
+        void verifSetGcSchedule(std::function<bool(size_t)> schedule) {
+            m_verifGcSchedule = std::move(schedule);
+        }
+        size_t verifStatementCount() const { return m_verifStmtCount; }
+        size_t verifCollections() const { return m_verifCollections; }
+        std::function<bool(size_t)> m_verifGcSchedule;
+        size_t m_verifStmtCount = 0;
+        size_t m_verifCollections = 0;
+#endif
 
         // Generic templates (stored by base class name without arguments)
         std::unordered_map<std::string, compiler::ClassDeclaration*> m_genericTemplates;
